@@ -131,6 +131,21 @@ def _gensym():
     return f"_ptera__{next(_IDX)}"
 
 
+def _annotation(thunk):
+    """Value of the annotation of a variable, if it can be evaluated.
+
+    Python does not evaluate the annotations of local variables when a
+    function runs, and evaluates those of its parameters where the function
+    is defined: an annotation that cannot be evaluated inside the function
+    (a name imported for type checking only, a local of the enclosing
+    function) must not make the instrumented function fail.
+    """
+    try:
+        return thunk()
+    except Exception:
+        return None
+
+
 def _suspend(cm, value):
     """Called by an instrumented generator right before it yields value."""
     suspend = getattr(cm, "suspend", None)
@@ -450,7 +465,31 @@ class PteraTransformer(NodeTransformer):
         if ann and isinstance(target, ast.Name):
             self.annotated[target.id] = self._evaluate(ann)
             self.linenos[target.id] = target.lineno
-        ann_arg = ann if ann else ast.Constant(value=None)
+        if ann and not isinstance(ann, ast.Constant):
+            ann_arg = ast.copy_location(
+                ast.Call(
+                    func=self._get("annotation"),
+                    args=[
+                        ast.Lambda(
+                            args=ast.arguments(
+                                posonlyargs=[],
+                                args=[],
+                                vararg=None,
+                                kwonlyargs=[],
+                                kw_defaults=[],
+                                kwarg=None,
+                                defaults=[],
+                            ),
+                            body=ann,
+                        )
+                    ],
+                    keywords=[],
+                ),
+                ann,
+            )
+            ast.fix_missing_locations(ann_arg)
+        else:
+            ann_arg = ann if ann else ast.Constant(value=None)
         value_arg = self._get("ABSENT") if value is None else value
         prelude = []
         fullname = None
@@ -1332,6 +1371,7 @@ def transform(fn, proceed, to_instrument=True, set_conformer=True):
         "ABSENT": ("__ptera_ABSENT", ABSENT),
         "Key": ("__ptera_Key", Key),
         "get_tags": ("__ptera_get_tags", get_tags),
+        "annotation": ("__ptera_annotation", _annotation),
         "self": (fnsym, None),
         "frame": ("__ptera_frame", None),
         "cm": ("__ptera_cm", None),
@@ -1353,6 +1393,19 @@ def transform(fn, proceed, to_instrument=True, set_conformer=True):
         to_instrument=to_instrument,
     )
     new_tree = transformer.result
+    # Like the default values, the annotations are taken from fn itself rather
+    # than evaluated again (they may refer to names that only exist where fn
+    # was defined).
+    for arg in [
+        *getattr(new_tree.args, "posonlyargs", []),
+        *new_tree.args.args,
+        *new_tree.args.kwonlyargs,
+        new_tree.args.vararg,
+        new_tree.args.kwarg,
+    ]:
+        if arg is not None:
+            arg.annotation = None
+    new_tree.returns = None
     ast.fix_missing_locations(new_tree)
     _, lineno = inspect.getsourcelines(fn)
     ast.increment_lineno(new_tree, lineno - 1)
@@ -1398,7 +1451,6 @@ def transform(fn, proceed, to_instrument=True, set_conformer=True):
             tuple(cells[name] for name in template.__code__.co_freevars),
         )
         actual_fn.__qualname__ = template.__qualname__
-        actual_fn.__annotations__ = template.__annotations__
         actual_fn.__doc__ = template.__doc__
         actual_fn.__module__ = template.__module__
     else:
@@ -1406,6 +1458,7 @@ def transform(fn, proceed, to_instrument=True, set_conformer=True):
 
     actual_fn.__defaults__ = fn.__defaults__
     actual_fn.__kwdefaults__ = fn.__kwdefaults__
+    actual_fn.__annotations__ = dict(fn.__annotations__)
     glb[fnsym] = actual_fn
 
     all_vars = transformer.used | transformer.assigned
